@@ -72,10 +72,12 @@ fsv_spl_linear(double n, int single, int* linear)
 }
 
 // one erosion step from a pre-state: receivers/counts/weights/distances/bottom-up order given, K per node or scalar
-FSV_API int
-fsv_spl_erode(const uint64_t* rec, const uint64_t* rcount, const double* weight, const double* rdist, const uint64_t* dfs,
-              const double* elev, const double* area, const double* kcoef, int k_scalar, double m_exp, double n_exp,
-              double tol, double dt, int rounds, const double* elev2, double* erosion, uint64_t* ncorr)
+// rec2/rcount2/dfs2 (optional): the routes are CHANGED between the two steps (as update_routes does between two erode() calls)
+static inline int
+fsv_spl_erode_impl(const uint64_t* rec, const uint64_t* rcount, const double* weight, const double* rdist, const uint64_t* dfs,
+                   const double* elev, const double* area, const double* kcoef, int k_scalar, double m_exp, double n_exp,
+                   double tol, double dt, int rounds, const double* elev2, double* erosion, uint64_t* ncorr,
+                   const uint64_t* rec2, const uint64_t* rcount2, const uint64_t* dfs2)
 {
     FSV_TRY
     {
@@ -113,6 +115,14 @@ fsv_spl_erode(const uint64_t* rec, const uint64_t* rcount, const double* weight,
             // second step on the same eroder object with another elevation field (stale erosion must not leak)
             for (int i = 0; i < FSV_N; i++)
                 e.flat(i) = elev2[i];
+            if (rec2)
+                for (int i = 0; i < FSV_N; i++)
+                {
+                    impl.m_receivers_count(i) = FSV_SINGLE ? 1 : rcount2[i];
+                    impl.m_dfs_indices(i) = dfs2[i];
+                    for (int k = 0; k < FSV_R; k++)
+                        impl.m_receivers(i, k) = rec2[i * FSV_R + k];
+                }
             res = &eroder.erode(e, a, dt);
         }
         for (int i = 0; i < FSV_N; i++)
@@ -121,4 +131,23 @@ fsv_spl_erode(const uint64_t* rec, const uint64_t* rcount, const double* weight,
         return 0;
     }
     FSV_CATCH
+}
+
+FSV_API int
+fsv_spl_erode(const uint64_t* rec, const uint64_t* rcount, const double* weight, const double* rdist, const uint64_t* dfs,
+              const double* elev, const double* area, const double* kcoef, int k_scalar, double m_exp, double n_exp,
+              double tol, double dt, int rounds, const double* elev2, double* erosion, uint64_t* ncorr)
+{
+    return fsv_spl_erode_impl(rec, rcount, weight, rdist, dfs, elev, area, kcoef, k_scalar, m_exp, n_exp, tol, dt, rounds, elev2, erosion, ncorr,
+                              nullptr, nullptr, nullptr);
+}
+
+FSV_API int
+fsv_spl_erode_rerouted(const uint64_t* rec, const uint64_t* rcount, const double* weight, const double* rdist, const uint64_t* dfs,
+                       const double* elev, const double* area, const double* kcoef, int k_scalar, double m_exp, double n_exp,
+                       double tol, double dt, const double* elev2, double* erosion, uint64_t* ncorr,
+                       const uint64_t* rec2, const uint64_t* rcount2, const uint64_t* dfs2)
+{
+    return fsv_spl_erode_impl(rec, rcount, weight, rdist, dfs, elev, area, kcoef, k_scalar, m_exp, n_exp, tol, dt, 2, elev2, erosion, ncorr,
+                              rec2, rcount2, dfs2);
 }
